@@ -374,6 +374,41 @@ def select(t, cond, polarity: bool = True):
     return t
 
 
+def resolve(t, oracle):
+    """Value of *t* on the paths an oracle selects: oracle(cond) -> True / False /
+    None for atomic conditions; not / and / or are decided from their parts."""
+    def dec(c):
+        d = oracle(c)
+        if d is not None:
+            return d
+        if isinstance(c, tuple) and c:
+            if c[0] == "not":
+                d = dec(c[1])
+                return None if d is None else (not d)
+            if c[0] in ("and", "or"):
+                parts = [dec(x) for x in c[1]]
+                if c[0] == "and":
+                    if any(p is False for p in parts):
+                        return False
+                    if all(p is True for p in parts):
+                        return True
+                else:
+                    if any(p is True for p in parts):
+                        return True
+                    if all(p is False for p in parts):
+                        return False
+        return None
+
+    if isinstance(t, tuple) and t and t[0] == "phi":
+        d = dec(t[1])
+        if d is True:
+            return resolve(t[2], oracle)
+        if d is False:
+            return resolve(t[3], oracle)
+        return phi(t[1], resolve(t[2], oracle), resolve(t[3], oracle))
+    return t
+
+
 def phi_leaves(t):
     """Leaves of a (nested) phi tree."""
     if isinstance(t, tuple) and t and t[0] == "phi":
